@@ -1,6 +1,6 @@
 //go:build verif
 
-package fp448
+package fp448_test
 
 // C06, mechanism "reduction of the peer value": Modp brings every peer value of
 // the C06 alphabets (X448 has no masked bit) to its canonical
@@ -11,20 +11,21 @@ import (
 
 	"github.com/cloudflare/circl/internal/verifc06"
 	"github.com/cloudflare/circl/internal/verifmc"
+	"github.com/cloudflare/circl/math/fp448"
 )
 
 func TestVerifC06_modp_fp448(t *testing.T) {
 	t.Parallel()
 	r := verifmc.Start(t, "C06", "modp_fp448")
 	defer r.Finish()
-	verifc06.RunModp(r, verifc06.P448, "fp448", c06Backend(), func(b []byte) {
-		var e Elt
+	verifc06.RunModp(r, verifc06.P448, "fp448", func(b []byte) {
+		var e fp448.Elt
 		copy(e[:], b)
-		Modp(&e)
+		fp448.Modp(&e)
 		copy(b, e[:])
 	}, func(b []byte) bool {
-		var e Elt
+		var e fp448.Elt
 		copy(e[:], b)
-		return IsZero(&e)
+		return fp448.IsZero(&e)
 	})
 }
